@@ -111,7 +111,7 @@ class C10(fw.Prop):
             "multi-cuts down to 1-byte chunks for long ones; after every chunk the harness polls until no flag lies at or after the search "
             "position; left side of each line = what C10 demands (number and digest of the frames wholly received so far), right side = the "
             "model's buffer length / search position / newly delivered payloads; malformed streams (garbage between frames, doubled flags) "
-            "validate the model outside the theorem; non-trivial = distinct (stream, cut set)")
+            "validate the model outside the theorem; streams handed over in one re-used bytearray; the longest frames from four-byte stations with shared and own flags; the UA answering SNRM in pieces (bare, with parameters 126/128, with 0x7E in a check sequence); non-trivial = distinct (stream, cut set)")
     trusted_base = ["C09 (frame parser accepts complete frames and refuses proper prefixes)", "the correspondence harness (RR sent after each delivered frame keeps the link awaiting a response)"]
     assumptions = ["'polling until none is pending' = polling until no flag byte lies at or after buffer_search_position (one poll examines one candidate flag)"]
     technique = "Lean 4 proof: online draining = batch draining (appending never changes a possible poll), batch delivery by induction over frames using parser facts P1/P2 proved for the C09 parser; differential correspondence over all cut positions"
